@@ -3,6 +3,7 @@ package main
 import (
 	"fmt"
 	"math"
+	"strings"
 	"time"
 
 	"verif/internal/drive"
@@ -99,7 +100,46 @@ func (c11) Plan(tier string, seed int64) []mon.Workload {
 		rnd = 200000
 	}
 	return []mon.Workload{{Name: "table", N: n, Exhaustive: true}, {Name: "random", N: rnd}, {Name: "sequences", N: rnd / 2},
-		{Name: "after-error", N: rnd / 4}}
+		{Name: "after-error", N: rnd / 4},
+		{Name: "alias-pairs", N: int64(len(c11AliasOps) * len(c11AliasKeys) * len(c11AliasKeys) * 3), Exhaustive: true}}
+}
+
+// alias-pairs (exhaustive): `_` stands for `message` in every spelling of a
+// key (identifier, string literal) and in both argument positions, also when
+// both arguments name the same key through different spellings; message is a
+// field, a tag, or absent.
+var c11AliasKeys = []string{"_", "message", "\"_\"", "\"message\"", "k"}
+var c11AliasOps = []string{"rename(A, B)", "add_key(A, B)", "rename(A, B)\nrename(B, A)", "set_tag(A)\nrename(B, A)", "strfmt(A, \"%v|%v\", B, 1)", "add_key(A, 5)\ndrop_key(B)", "cast(A, \"str\")\nuppercase(B)"}
+
+func c11AliasCase(i int64) c11Case {
+	where := int(i % 3)
+	i /= 3
+	b := c11AliasKeys[int(i)%len(c11AliasKeys)]
+	i /= int64(len(c11AliasKeys))
+	a := c11AliasKeys[int(i)%len(c11AliasKeys)]
+	op := c11AliasOps[int(i)/len(c11AliasKeys)]
+	text := strings.ReplaceAll(strings.ReplaceAll(op, "A", a), "B", b) + "\np(get_key(_), get_key(message), get_key(k), len(_))\n"
+	o := drive.Parse("alias-pairs", text)
+	if o.Err != nil {
+		return c11Case{Skip: true}
+	}
+	l, err := gt.FromStmts(o.Stmts)
+	if err != nil {
+		return c11Case{Skip: true}
+	}
+	// which argument positions take a string literal as key spelling is the
+	// checkers' business (C08): combinations they reject are not cases here
+	if _, lerr := drive.LoadV1One("alias-pairs", text); lerr != nil {
+		return c11Case{Skip: true}
+	}
+	pt := ref.NewPoint("meas", map[string]string{"bt": "bystander"}, map[string]any{"k": "kay", "b1": int64(41)}, time.Unix(1700000123, 0))
+	switch where {
+	case 0:
+		pt.Fields["message"] = "the message"
+	case 1:
+		pt.Tags["message"] = "tagged message"
+	}
+	return c11Case{Stmts: gt.CloneStmts(l), Point: pt, Cell: "alias"}
 }
 
 // after-error: "from the script variable of that name IF ONE EXISTS": a
@@ -303,6 +343,13 @@ func (k c11) Describe(c *mon.Ctx, workload string, i int64) any {
 		cs := k.sequence(c)
 		return map[string]any{"source": gt.Print(gt.ParenthesizeStmts(cs.Stmts), nil), "point": cs.Point.Show()}
 	}
+	if workload == "alias-pairs" {
+		cs := c11AliasCase(i)
+		if cs.Skip {
+			return "skipped combination"
+		}
+		return map[string]any{"source": gt.Print(gt.ParenthesizeStmts(cs.Stmts), nil), "point": cs.Point.Show()}
+	}
 	if workload == "after-error" {
 		workload = "random"
 	}
@@ -359,6 +406,14 @@ func (k c11) Run(c *mon.Ctx, workload string, i int64) {
 	if workload == "sequences" {
 		cs := k.sequence(c)
 		runBuiltinCase(c, cs.Stmts, cs.Point, "", ref.Merge(ref.ProbeFuncs(), ref.FieldFuncs()), "c11.p")
+		return
+	}
+	if workload == "alias-pairs" {
+		cs := c11AliasCase(i)
+		if cs.Skip {
+			return
+		}
+		runBuiltinCase(c, cs.Stmts, cs.Point, cs.Cell, ref.Merge(ref.ProbeFuncs(), ref.FieldFuncs()), "c11.p")
 		return
 	}
 	if workload == "after-error" {
